@@ -57,6 +57,9 @@ C["C11"] = dict(
 C["C14"] = dict(
     text="12 scenarios on a real pair (echo workload in synchronous and callback mode, OpenStream bursts, GetMetrics, a Flush waiting on a full queue of a stalled peer) racing with Session.Close (client, server, both, twice/concurrently) or with the death of the peer process (all its threads stop, its descriptors close) injected at ANY scheduling point; memfd and /dev/shm-file mappings; every schedule with <= 2/1 (quick) / <= 3/2 (thorough) deviations; oracles: no panic, no access to memory the code already unmapped (PROT_NONE + SetPanicOnFault), no deadlock or horizon, survivor closed, reads return within 20 virtual seconds, later calls fail, one close callback per stream, Close idempotent; after both ends closed and quiescence: buffer-manager table empty, queue mappings gone, no descriptor beyond the baseline, no /dev/shm file",
     note=NOTE_B + "; peer death is emulated inside one OS process (threads stopped for good + descriptors closed), so kernel-side effects of a real SIGKILL other than the hang-up are not modelled; use-after-unmap by in-flight user goroutines (D9) is a recorded known finding", technique=TECH_B, design="DESIGN.md section 4 C14")
+C["C15"] = dict(
+    text="real SessionManager pool code (GetStream/PutBack, getOrOpenStream/putOrCloseStream/push/pop) on a real pair with an echoing callback server: (a) every history up to depth 5 (quick) / 6 (thorough) over {GetStream by caller a/b, full use, write without reading, read, PutBack a/b, peer closes the stream, late response on a pooled stream, write that goes by socket fallback, session lost} for pool capacities 1 and 2, each operation run to quiescence, plus longer two-caller histories around the capacity; (b) two concurrent callers doing two Get/use/PutBack rounds, with and without a peer closing streams, every schedule with <= 1 (quick) / <= 2 (thorough) deviations; oracles at every hand-out: open, live session, no buffered or pending byte of an earlier use, not held by the other caller; at the end active streams == held + pooled",
+    note=NOTE_B + "; histories run on the default schedule (0 deviations)", technique=TECH_B + " + bounded-exhaustive operation histories", design="DESIGN.md section 4 C15")
 NA = {}
 m = {
     "version": 1,
